@@ -13,7 +13,11 @@
 EXTENDS Integers, Sequences, FiniteSets, TLC, Json
 
 CONSTANTS Depth,        \* behaviours of exactly this many API events are emitted
-          DebugOn       \* FALSE models `python -O`: the switch then reads False whatever was assigned (the __debug__ coupling)
+          DebugOn,      \* FALSE models `python -O`: the switch then reads False whatever was assigned (the __debug__ coupling)
+          Threads,      \* threads of the process that issue events.  There is ONE switch per process ("package-wide"): the thread an
+                        \* event comes from appears in the event and nowhere in its effect
+          FuncSel,      \* the functions whose calls are events in this configuration (AllFuncs for everything)
+          AssignSel     \* the values assigned in this configuration (AssignValues for everything)
 
 (* values a user may assign: only the Python singletons True / False are valid *)
 AssignValues == {"True", "False", "int0", "int1", "None", "str_yes", "np_true", "np_false",
@@ -39,8 +43,9 @@ Funcs == {"u_to_euler", "u_to_rod", "u_to_ubi", "euler_to_u", "ubi_to_u", "ubi_t
 
 Calls == {[m |-> m, f |-> f, c |-> c] : m \in Modules, f \in Funcs, c \in RotClasses \cup
               {"valid", "negative", "above2pi", "validubi", "lefthanded", "validub", "negdet", "halfturn"}}
-CallEvents == {e \in Calls : e.c \in Classes(e.f)}
-              \cup {[m |-> "symmetry", f |-> "Umis", c |-> c] : c \in Classes("Umis")}
+AllFuncs == Funcs \cup {"Umis"}
+CallEvents == {e \in ({e \in Calls : e.c \in Classes(e.f)}
+                      \cup {[m |-> "symmetry", f |-> "Umis", c |-> c] : c \in Classes("Umis")}) : e.f \in FuncSel}
 
 VARIABLES switch, out, hist
 vars == <<switch, out, hist>>
@@ -49,25 +54,29 @@ Init == switch = TRUE /\ out = "none" /\ hist = <<>>
 
 (* what xfab.CHECKS.activated reads: the stored flag and not running under -O *)
 Active(sw) == sw /\ DebugOn
-Assign(v) == /\ IF v \in ValidAssign
+Assign(v, th) ==
+             /\ IF v \in ValidAssign
                   THEN switch' = (v = "True") /\ out' = "ok"
                   ELSE switch' = switch /\ out' = "ValueError"
-             /\ hist' = Append(hist, [ev |-> "assign", v |-> v, out |-> out', sw |-> Active(switch')])
+             /\ hist' = Append(hist, [ev |-> "assign", v |-> v, out |-> out', sw |-> Active(switch'), th |-> th])
 
-Call(e) == /\ out' = IF Active(switch) /\ e.c \in Rejects(e.f) THEN "CheckError"
+Call(e, th) ==
+           /\ out' = IF Active(switch) /\ e.c \in Rejects(e.f) THEN "CheckError"
                      ELSE IF e.c \in ValidClasses THEN "returns" ELSE "unchecked"
            /\ switch' = switch
-           /\ hist' = Append(hist, [ev |-> "call", m |-> e.m, f |-> e.f, c |-> e.c, out |-> out', sw |-> Active(switch)])
+           /\ hist' = Append(hist, [ev |-> "call", m |-> e.m, f |-> e.f, c |-> e.c, out |-> out', sw |-> Active(switch), th |-> th])
 
 (* a second, private instance of the switch class is created and assigned: the package-wide switch is not affected *)
-OtherInstance(v) == /\ switch' = switch
+OtherInstance(v, th) ==
+                    /\ switch' = switch
                     /\ out' = IF v \in ValidAssign THEN "ok" ELSE "ValueError"
-                    /\ hist' = Append(hist, [ev |-> "other_instance", v |-> v, out |-> out', sw |-> Active(switch)])
+                    /\ hist' = Append(hist, [ev |-> "other_instance", v |-> v, out |-> out', sw |-> Active(switch), th |-> th])
 
 Next == /\ Len(hist) < Depth
-        /\ \/ \E v \in AssignValues : Assign(v)
-           \/ \E v \in {"True", "False", "int1"} : OtherInstance(v)
-           \/ \E e \in CallEvents : Call(e)
+        /\ \E th \in Threads :
+           \/ \E v \in AssignSel : Assign(v, th)
+           \/ \E v \in {"True", "False", "int1"} : OtherInstance(v, th)
+           \/ \E e \in CallEvents : Call(e, th)
 Spec == Init /\ [][Next]_vars
 
 ---------------------------------------------------------------------------
@@ -88,9 +97,16 @@ OffMeansOff == \A i \in 1..Len(hist) : (hist[i].ev = "call" /\ ~hist[i].sw) => h
 OnRejectsInvalid == \A i \in 1..Len(hist) :
      (hist[i].ev = "call" /\ hist[i].sw /\ hist[i].c \notin ValidClasses \cup Unguarded) => hist[i].out = "CheckError"
 (* no call ever changes the switch (action property): composite functions that call guarded functions included *)
-CallsKeepSwitch == [][(\E e \in CallEvents : Call(e)) => switch' = switch]_vars
+CallsKeepSwitch == [][(\E th \in Threads : \E e \in CallEvents : Call(e, th)) => switch' = switch]_vars
+(* what a thread observes does not depend on which thread assigned: every event's logged switch state is the last valid assignment
+   of the WHOLE history before it, whatever the threads *)
+RECURSIVE LastValidBefore(_, _)
+LastValidBefore(h, i) == IF i = 0 THEN TRUE
+                         ELSE IF h[i].ev = "assign" /\ h[i].v \in ValidAssign THEN h[i].v = "True" ELSE LastValidBefore(h, i - 1)
+OneSwitchPerProcess == \A i \in 1..Len(hist) :
+    hist[i].sw = Active(LastValidBefore(hist, IF hist[i].ev = "assign" THEN i ELSE i - 1))
 (* an invalid assignment leaves the switch unchanged (action property) *)
-InvalidAssignKeeps == [][(\E v \in AssignValues \ ValidAssign : Assign(v)) => switch' = switch]_vars
+InvalidAssignKeeps == [][(\E th \in Threads : \E v \in AssignValues \ ValidAssign : Assign(v, th)) => switch' = switch]_vars
 
 Emit == Len(hist) = Depth => PrintT("@@" \o ToJson([hist |-> hist]))
 =============================================================================
